@@ -193,6 +193,12 @@ def r_transform(ck: Checker) -> None:
     calls = resolved_calls(ck.prg, pu, "ngo.utils.ast:transform_ast")
     ok = len(calls) == 1 and len(calls[0].args) == 3 and is_const(calls[0].args[1], "SymbolicAtom") and unparse(calls[0].args[2]) == "self.transform"  # type: ignore[arg-type]
     ck.add("projection is applied to every symbolic atom", ok, pu, pu.node, f"`{fmt(calls[0]) if calls else None}`", "F4: a predicate must be renamed at every occurrence or not at all")
+    if calls and pu.name.endswith("._project_unused_stm"):
+        itp = ck.interp(pu, None, mark_stmts={id(enclosing_stmt(pu, calls[0])): "projected"})
+        rs = [(r_, st_) for r_, st_ in itp.returns if r_.value is not None]
+        okr = bool(rs) and all("projected" in st_.marks and itp.text(r_.value, st_).startswith("transform_ast(") for r_, st_ in rs)
+        ck.add("... whatever kind the statement has", okr, pu, calls[0], f"every return of _project_unused_stm hands back the projected statement: {okr}",
+               "analyze_usage reads the bodies of #edge, #heuristic, #external, #project and #show statements too: a statement kind that is skipped here keeps the old atom `used(X,Y,_)` that no rule derives any more")
     outer = ck.func(f"{CLS}.project_unused")
     oc = resolved_calls(ck.prg, outer, f"ngo.{CLS}._project_unused_stm")
     if not oc and pu is outer:
